@@ -76,6 +76,21 @@ theorem cse_sorted_args_commute (op : Op) (h : sortsArgs op = true)
     | (exfalso; revert h; decide)
     | simp [Spec.comb, Nat.and_comm, Nat.or_comm, Nat.xor_comm, Nat.add_comm, Nat.mul_comm, eq_comm]
 
+/-- the same for three-argument nets (the only one is the mux, whose argument order is its meaning): an
+    op whose arguments CSE sorts must be invariant under both adjacent transpositions, hence under every
+    permutation of its three arguments -/
+theorem cse_sorted_args_commute3 (op : Op) (h : sortsArgs op = true)
+    (w1 w2 w3 a b c dw : Nat) :
+    Spec.comb op [(w1, a), (w2, b), (w3, c)] dw = Spec.comb op [(w2, b), (w1, a), (w3, c)] dw ∧
+    Spec.comb op [(w1, a), (w2, b), (w3, c)] dw = Spec.comb op [(w1, a), (w3, c), (w2, b)] dw := by
+  cases op <;> first
+    | (exfalso; revert h; decide)
+    | simp [Spec.comb]
+
+/-- memory write ports (address, data, enable) are never argument-sorted -/
+theorem cse_keeps_write_port_order (m : Nat) : sortsArgs (.mwrite m) = false ∧ sortsArgs .concat = false := by
+  constructor <;> simp [sortsArgs, opName] <;> decide
+
 /-- ops whose folding is skipped are exactly the structural ones; every op with a folding rule is
     among the valid ones (table consistency, so no rule is silently unreachable). -/
 theorem fold_tables_consistent :
